@@ -3,16 +3,17 @@ CONSTANTS
   Digests = {"d1", "d2"}
   Threads = {"t1", "t2", "t3"}
   NoDigest = "none"
-  MaxGets = 14
-  MaxUpd = 10
+  MaxGets = 5
+  MaxUpd = 3
   WritesPerRead = 3
-  VersionRules = {"wr+1"}
-  WriteGuards = {0}
-  ReuseSlots = FALSE
+  VersionRules = {"cur+1"}
+  WriteGuards = {1}
+  ReuseSlots = TRUE
   EagerFinish = TRUE
   RecordHist = TRUE
   MaxN = 1
   MaxT = 0
+VIEW StoreView
 INVARIANTS
-  SimDump
+  CexStaleRead
 CHECK_DEADLOCK FALSE
